@@ -118,7 +118,7 @@ var plans = map[string]plan{
 		Level:    "exploration",
 		Rule:     "case = run of strings/binaries decoded by thrift.Binary (lengths over every span-allocator class: 0, <128, every power of two +-1 up to 128 KiB, larger; runs of 200..800 values wrapping the 1 MiB spans) with the span cache off and on; every returned []byte is appended to and overwritten, then the input buffer is overwritten: input, siblings and snapshots must stay intact, and returned slices (incl. spare capacity) must not overlap the input; stream reader: values of a first message retained across Release, Recycle, pool reuse by a co-tenant and the decoding of a second message through a recycled BufferReader; decoded Base / ApplicationException / unknown-field trees after their input is overwritten. Non-trivial iff length >= 1; distinct by (lengths, reader kind, span-cache setting).",
 		Required: []string{"buffer-decoded values attacked", "stream-decoded values attacked", "structs attacked", "bytes decoded in runs"},
-		Quick:    []job{{"plain", 8}},
+		Quick:    []job{{"plain", 8}, {"race", 2}},
 		Thorough: []job{{"gcstress", 4}, {"plain", 16}, {"race", 4}, {"go126", 4}},
 	},
 	"C17": {
